@@ -385,10 +385,20 @@ pub fn check(case: &Case, _tier: Tier) -> Outcome {
           Some(w) if w == v => {}
           other => {
             round_diverged = true;
-            o.violate(
-              "C19/unreachable-entry-altered",
-              format!("{k}: before={v} after={other:?}"),
-            );
+            // an answer whose acceptance depends on the request context may
+            // be decided again by a later request (the recorded finding)
+            match obs::acceptance_is_context_sensitive(&new_world, k)
+              .or_else(|| obs::acceptance_is_context_sensitive(&world, k))
+            {
+              Some(class) => o.violate(
+                format!("C19/reload-vs-fresh/context-sensitive-acceptance/{class}"),
+                format!("(entry outside the fresh graph decided again) {k}: before={v} after={other:?}"),
+              ),
+              None => o.violate(
+                "C19/unreachable-entry-altered",
+                format!("{k}: before={v} after={other:?}"),
+              ),
+            }
           }
         }
       }
